@@ -165,6 +165,8 @@ def _raise_message(n: ast.Raise, consts: dict[str, object]) -> tuple[str, str] |
         return None
     if e.func.id == "_token_rejected" and not e.args:
         return str(consts.get("_TOKEN_REJECTED_MESSAGE", "<missing _TOKEN_REJECTED_MESSAGE>")), "BAD_REQUEST:uniform"
+    if e.func.id == "_undeclared_call_state_type":
+        return "<helper:_undeclared_call_state_type>", "BAD_REQUEST"
     if e.func.id == "_RpcHttpError" and e.args:
         inner = e.args[0]
         status = ""
@@ -222,14 +224,29 @@ def _struct_formats(fn: ast.FunctionDef) -> list[str]:
     return out
 
 
-def _ttl_shape(fn: ast.FunctionDef) -> tuple[str, str]:
-    """(`if token_ttl > 0` guard, `int(time.time()) - created_at > token_ttl` test) as source text."""
+def _ttl_shape(fn: ast.FunctionDef) -> tuple[str, str, str]:
+    """(kind, guard, test) of the TTL check.
+
+    nested:  `if token_ttl > 0:` { created_at = unpack_from…; `if int(time.time()) - created_at > token_ttl:` raise }
+    flat:    created_at = unpack_from… (unconditional); `if token_ttl > 0 and int(time.time()) - created_at > token_ttl:` raise
+    """
     for n in ast.walk(fn):
         if isinstance(n, ast.If) and "token_ttl" in ast.unparse(n.test):
+            t = n.test
+            if isinstance(t, ast.BoolOp) and isinstance(t.op, ast.And) and len(t.values) == 2:
+                unconditional = any(
+                    isinstance(b, (ast.Assign, ast.AnnAssign)) and "created_at" in ast.unparse(b.target if isinstance(b, ast.AnnAssign) else b.targets[0])
+                    and "struct.unpack_from('<Q', plaintext, 0)" in ast.unparse(b.value)  # type: ignore[arg-type]
+                    for b in fn.body
+                )
+                raises = any(isinstance(b, ast.Raise) for b in n.body)
+                if unconditional and raises:
+                    return "flat", ast.unparse(t.values[0]), ast.unparse(t.values[1])
+                return "?", "", ""
             inner = [m for m in ast.walk(n) if isinstance(m, ast.If) and m is not n]
             if inner:
-                return ast.unparse(n.test), ast.unparse(inner[0].test)
-    return "", ""
+                return "nested", ast.unparse(n.test), ast.unparse(inner[0].test)
+    return "?", "", ""
 
 
 def _strict_b64(tree: ast.Module, opener: ast.FunctionDef) -> bool:
@@ -291,7 +308,35 @@ def _recover_order(fn: ast.FunctionDef) -> list[str]:
         if isinstance(n, ast.If) and ast.unparse(n.test) == "resolved.method != method_name":
             if any(isinstance(b, ast.Raise) and ast.unparse(b.exc) == "_token_rejected()" for b in n.body if b.exc is not None):  # type: ignore[union-attr]
                 ev.append((n.lineno, n.col_offset, "method_check"))
+        if isinstance(n, ast.If) and ast.unparse(n.test) == "call_state_type not in _declared_call_state_types(state_info)":
+            ev.append((n.lineno, n.col_offset, "hit_type_check"))
     return [e[2] for e in sorted(ev)]
+
+
+def _hit_branch(fn: ast.FunctionDef) -> list[str]:
+    """What `_unpack_and_recover_state` does in the `else:` (cache hit) branch of `if resolved is None:`."""
+    for n in ast.walk(fn):
+        if isinstance(n, ast.If) and ast.unparse(n.test) == "resolved is None":
+            out = []
+            for b in n.orelse:
+                for m in ast.walk(b):
+                    if isinstance(m, ast.If):
+                        t = ast.unparse(m.test)
+                        if t == "resolved.method != method_name":
+                            out.append("method_check")
+                        elif t == "call_state_type not in _declared_call_state_types(state_info)":
+                            out.append("hit_type_check")
+            miss = []
+            for b in n.body:
+                for m in ast.walk(b):
+                    if isinstance(m, ast.Call):
+                        f = ast.unparse(m.func)
+                        if f == "_resolve_call_from_token":
+                            miss.append("resolve_call_from_token")
+                        elif f.endswith("_call_state_cache.put"):
+                            miss.append("cache_put")
+            return ["miss:" + x for x in miss] + ["hit:" + x for x in out]
+    return []
 
 
 def _call_order(fn: ast.FunctionDef) -> list[str]:
@@ -306,7 +351,7 @@ def _call_order(fn: ast.FunctionDef) -> list[str]:
                 ev.append((n.lineno, n.col_offset, "pairing_check"))
         if isinstance(n, ast.Call):
             name = ast.unparse(n.func)
-            if name == "_open_call_token":
+            if name in ("_open_call_token", "_open_call_token_dated"):
                 ev.append((n.lineno, n.col_offset, "open_call"))
             elif name == "pa.ipc.read_schema":
                 ev.append((n.lineno, n.col_offset, "read_schema"))
@@ -363,7 +408,10 @@ def emit() -> dict[str, str]:
         raise Shape("codec tags are not single bytes")
 
     open_cur = _func(st_tree, "_open_cursor_token")
-    open_call = _func(st_tree, "_open_call_token")
+    try:
+        open_call = _func(st_tree, "_open_call_token_dated")
+    except Shape:
+        open_call = _func(st_tree, "_open_call_token")
     seal_cur = _func(st_tree, "_seal_cursor_token")
     seal_call = _func(st_tree, "_seal_call_token")
     read_seg = _func(st_tree, "_read_segment")
@@ -416,7 +464,8 @@ def emit() -> dict[str, str]:
 
     ttl_cur = _ttl_shape(open_cur)
     ttl_call = _ttl_shape(open_call)
-    ttl_ok = ttl_cur == ttl_call == ("token_ttl > 0", "int(time.time()) - created_at > token_ttl")
+    want_ttl = ("token_ttl > 0", "int(time.time()) - created_at > token_ttl")
+    ttl_ok = ttl_cur[1:] == want_ttl and ttl_call[1:] == want_ttl and ttl_cur[0] == "nested" and ttl_call[0] in ("nested", "flat")
 
     strict = _strict_b64(st_tree, open_cur) and _strict_b64(st_tree, open_call)
     validate = _b64_validate(st_tree, open_cur) and _b64_validate(st_tree, open_call)
@@ -435,7 +484,7 @@ def emit() -> dict[str, str]:
 
     vers = {f.name: _ver(f) for f in (open_cur, seal_cur, open_call, seal_call)}
     if vers != {"_open_cursor_token": "_CURSOR_TOKEN_VERSION", "_seal_cursor_token": "_CURSOR_TOKEN_VERSION",
-                "_open_call_token": "_CALL_TOKEN_VERSION", "_seal_call_token": "_CALL_TOKEN_VERSION"}:
+                open_call.name: "_CALL_TOKEN_VERSION", "_seal_call_token": "_CALL_TOKEN_VERSION"}:
         raise Shape(f"unexpected envelope versions {vers}")
 
     site_lines = ",\n".join(f"  ({_lean_str(k)}, {_lean_str(m)}, {_lean_str(s)})" for k, m, s in sites)
@@ -480,8 +529,13 @@ def callAadHasMethod : Bool := {str(bool(aad_call["method_bound"])).lower()}
 def methodSep : UInt8 := {(aad_call["method_sep"] or b"\\0")[0]}
 
 /-! shapes -/
-/-- TTL guard is `if token_ttl > 0:` and the test `int(time.time()) - created_at > token_ttl` in both openers -/
+/-- TTL guard is `token_ttl > 0` and the test `int(time.time()) - created_at > token_ttl` in both openers -/
 def ttlShapeRecognised : Bool := {str(ttl_ok).lower()}
+/-- the call opener reads `created_at` unconditionally and tests `token_ttl > 0 and …` in one `if` ("flat"),
+    or reads it under `if token_ttl > 0:` ("nested", as the cursor opener does) -/
+def callTtlFlat : Bool := {str(ttl_call[0] == "flat").lower()}
+/-- name of the function that opens call tokens on the request path -/
+def callOpener : String := {_lean_str(open_call.name)}
 /-- both openers decode with `base64.b64decode(token, validate=True)` -/
 def b64Validate : Bool := {str(validate).lower()}
 /-- both openers additionally require `base64.b64encode(raw) == token` (one accepted spelling per envelope) -/
@@ -501,6 +555,8 @@ def rejectSites : List (String × String × String) := [
 
 /-- steps of `_unpack_and_recover_state`, in source order -/
 def recoverOrder : List String := [{order}]
+/-- the two branches of `if resolved is None:` in `_unpack_and_recover_state` -/
+def recoverBranches : List String := [{", ".join(_lean_str(x) for x in _hit_branch(rec))}]
 /-- steps of `_resolve_call_from_token`, in source order -/
 def resolveCallOrder : List String := [{corder}]
 
